@@ -90,6 +90,9 @@ func linRandomOp(c *hx.Ctx, profile int) linOp {
 	case x < 12:
 		return linUpdate(op{kind: 'E', topic: tp})
 	case x < 13:
+		if c.Rng.Intn(3) == 0 {
+			return linUpdate(op{kind: 'X'}) // Reset: replaces the root under the write lock
+		}
 		return linUpdate(op{kind: 'C', val: v})
 	case x < 16:
 		return linQuery("G", tp)
@@ -138,8 +141,12 @@ func linRun(c *hx.Ctx, n int) {
 					runtime.Gosched()
 				}
 			}
-			for _, o := range plans[i] {
+			for k, o := range plans[i] {
+				if (i+k)%5 == 0 {
+					_ = t.String() // not an event of the history: here for the race detector
+				}
 				call := atomic.AddInt64(&clock, 1)
+				tick(o.text)
 				res := o.run(t)
 				ret := atomic.AddInt64(&clock, 1)
 				out[i] = append(out[i], fmt.Sprintf("%d;%d;%d;%s;%s", i, call, ret, o.text, res))
@@ -177,6 +184,8 @@ func runC05Lin(c *hx.Ctx) {
 	runs := 4000
 	if c.Thorough() {
 		runs = 60000
+	} else if raceBuild {
+		runs = 1200
 	}
 	for n := 0; n < runs; n++ {
 		linRun(c, n)
